@@ -9,6 +9,8 @@ import (
 	"strconv"
 	"strings"
 	"testing"
+
+	"github.com/6tail/lunar-go/SolarUtil"
 )
 
 var pfDigits = map[rune]int{'〇': 0, '一': 1, '二': 2, '三': 3, '四': 4, '五': 5, '六': 6, '七': 7, '八': 8, '九': 9}
@@ -161,6 +163,23 @@ func TestStandinPrintForms(t *testing.T) {
 			expect((strings.Compare(prev.ToYmdHms(), b) < 0) == prev.IsBefore(s) && (strings.Compare(prev.ToYmd(), a) < 0) == (prev.Subtract(s) < 0), "order of %q and %q", prev.ToYmdHms(), b)
 		}
 		prev = s
+	}
+	// the ends of every month of every year (incl. 29 February of the Julian century years and 1582-10-31): both civil
+	// forms parse back to exactly the fields and agree on the date part
+	for y := 1; y <= 9999; y++ {
+		for m := 1; m <= 12; m++ {
+			last := SolarUtil.GetDaysOfMonth(y, m)
+			if y == 1582 && m == 10 {
+				last = 31
+			}
+			for _, d := range []int{1, last - 1, last} {
+				s := NewSolar(y, m, d, 23, 59, 58)
+				a, b := s.ToYmd(), s.ToYmdHms()
+				var py, pm, pd, ph, pi, ps int
+				n, _ := fmt.Sscanf(b, "%04d-%02d-%02d %02d:%02d:%02d", &py, &pm, &pd, &ph, &pi, &ps)
+				expect(len(a) == 10 && len(b) == 19 && b[:10] == a && s.String() == a && n == 6 && py == y && pm == m && pd == d && ph == 23 && pi == 59 && ps == 58, "%d-%d-%d 23:59:58 prints %q / %q / %q", y, m, d, a, b, s.String())
+			}
+		}
 	}
 	fmt.Println("STANDIN-EVAL", evals)
 	fmt.Println("STANDIN-DONE")
